@@ -22,6 +22,68 @@ CHECKS = {
                   "overwriting input wires."),
 }
 
+
+CHECKS["C02"] = dict(
+    category="proof", design_ref="DESIGN.md section 2 / C02",
+    technique="Lean 4 theorem (composition of C01 with message-level framing, value packing and an OT specification) + byte-exact transcript correspondence",
+    text=("Theorem C02_both_get_f: for every well-formed two-party circuit, inputs, key derivation, offset, label randomness "
+          "and every OT satisfying OtSpec, the model of circuit.Garbler/Evaluator returns ok(split(plainEval(x++y))) at both "
+          "ends, no error branch. The same Lean definitions are executed and compared with real sessions over a recording, "
+          "read-fragmenting transport: with an out-of-band ideal OT both directions' complete byte streams and both result "
+          "vectors are byte-exact; with RSA, CO, COT, COT-malicious the results agree. Structural facts pin the "
+          "Send/Receive/OT call order. Oracle: both parties' results equal Circuit.Compute."),
+    note=TB + "OT is a parameter with specification OtSpec (C06); goroutine scheduling of the two parties is outside the "
+              "model (the protocol is a fixed alternation; byte-stream faithfulness is C11).")
+
+CHECKS["C13"] = dict(
+    category="proof", design_ref="DESIGN.md section 2 / C13",
+    technique="Lean 4 theorems (bit-level induction over Parse/Set loops, member lists, bitLen) over an executable model + line-by-line model/implementation correspondence + reference-encoder oracle",
+    text=("Lean theorems: Parse puts the written w-bit groups on the element wires in declaration order with zero padding for "
+          "every element width and count; compounds are the exact concatenation of their members with member independence; "
+          "Parse and Set agree on ints and byte arrays; Sizes = InputSizes; InputSizes -> Instantiate -> Parse is lossless; "
+          "Result inverts the encoding for uint/int/bool/arrays at every width and is pure and repeatable. Where /repo "
+          "violates the statement the negation is proved with a witness and recorded as a known finding (or repaired by a "
+          "fix: commit). ~50k op lines per quick run are executed on the real Go functions and on the compiled model."),
+    note=TB + "big.Int.SetString, the regexps and the IsPrint table are taken as given and corresponded; struct outputs and "
+              "types.Parse are corresponded only.")
+
+CHECKS["C16"] = dict(
+    category="proof", design_ref="DESIGN.md section 2 / C16",
+    technique="Lean 4 theorem (reduction: wrong result implies a received label equals honest label xor offset) + fault enumeration on the real code, one process per fault",
+    text=("Theorems C16_ok_imp_known_labels / C16_wrong_imp_offset: with an honest garbler and ARBITRARY received output labels "
+          "(covering any corruption in either direction), a returned value is the decoding of labels that are each one of the "
+          "wire's two labels, so a wrong value implies some received label equals the honest label xor the secret offset; "
+          "unknown labels and wrong gate counts take error branches. The decision logic is tied to the real circuit.Garbler "
+          "by driving it with a scripted evaluator; structural facts pin BitFromLabel as the only path to result bits. "
+          "Fault enumeration (bit flips, byte sets, 16-byte bursts at byte positions of both directions of sessions with CO / "
+          "COT / COT-malicious on the wire) requires outcome error|stalled|crash|ok(correct). Partial: authenticity of the "
+          "garbling scheme itself is cryptographic, covered by the enumeration, not by a theorem."),
+    note=TB + "Streaming sessions: result-loop decision logic shared and pinned by a structural fact; fault enumeration of "
+              "streaming sessions not yet included.")
+
+CHECKS["C17"] = dict(
+    category="proof", design_ref="DESIGN.md section 2 / C17",
+    technique="Lean 4 transition-system model with an inductive invariant over all interleavings + go/ast structural facts + trace replay on the model + race-detector stress oracle",
+    text=("The scratch-pool ownership protocol of Circuit.Garble/Release is proved over all interleavings, any number of "
+          "goroutines and calls: one pool per circuit, each scratch has exactly one owner, a concurrent Garble result equals "
+          "C01's sequential garble and stays unchanged until release, sequential double Release is a no-op. Tied to "
+          "circuit/garble.go by extracted structural facts and by replaying logged pool events of real concurrent runs on the "
+          "model; every concurrent Garble/Eval/Compute result is compared with the single-goroutine result, with and without "
+          "the race detector. Partial: Go memory-model races are sampled at run time only."),
+    note=TB + "sync.Pool and atomic.Pointer assumed linearizable; handle usage contract (one goroutine per handle, no by-value "
+              "copy) is a hypothesis, its necessity is exhibited on model and code.")
+
+CHECKS["C19"] = dict(
+    category="proof", design_ref="DESIGN.md section 2 / C19",
+    technique="Lean 4 inductive invariant of a transition system over all interleavings (n, m arbitrary) + termination measure + trace validation of real executions + forced-schedule witness replay",
+    text=("Safety (no lost/duplicated/cross-wired connection, no error path), deadlock freedom, termination (strictly "
+          "decreasing measure) and final-state completeness (every pair shares exactly m connections, k-th <-> k-th) are "
+          "proved for the mesh-formation transition system for every n >= 2 and m. Every recorded hook trace of real "
+          "loopback sessions (2..6 parties x 1..4 connections, permuted joins, seeded delays) is validated as a run of the "
+          "model; oracle: every Connect returns, tables complete, tagged ping on every connection arrives on the same k."),
+    note=TB + "TCP, sync.Cond and scheduling are modelled (accept order arbitrary); real timing is sampled. Hooks: "
+              "p2p/verif_point_{on,off}.go + verifPoint calls.")
+
 NOT_YET = {}
 
 PROPS = [json.loads(l)["id"] for l in open(os.path.join(VERIF, "properties.jsonl"))]
@@ -71,7 +133,7 @@ def main():
     print("MANIFEST.json: %d checks, %d not_applicable" % (len(checks), len(na)))
 
 
-HOOK_COMMITS = []
+HOOK_COMMITS = ["4c985c7"]
 
 if __name__ == "__main__":
     main()
